@@ -164,7 +164,7 @@ impl Prop for C03 {
         "C03"
     }
     fn rule(&self) -> &'static str {
-        "cases = in-scope scenario (MAC, self-IP list, deny list, key; destination MAC drawn from the authorised set) x 0..6 unrelated history steps x one answerable request (ARP request, echo v4/v6 with data 0..1472, neighbour solicitation unicast/solicited-node with NDP options, SYN with PSH/URG/ECE/CWR and payload, handshaken TCP data / UDP carrying an application request of every protocol generator or a hostile STUN TLV list, FIN|ACK; arbitrary addresses and ports incl. 0 and 65535). Oracle: independent decoder; Ethernet/IP/port tuple of the reply is the mirror image of the request's (NS: source = solicited target; STUN change-port: source port = dport+1), buffer is exactly one frame. Non-trivial = a reply exists; distinct by hash of (request, reply)."
+        "cases = in-scope scenario (MAC, self-IP list, deny list, key; destination MAC drawn from the authorised set) x 0..6 unrelated history steps x one answerable request, optionally with varied IP header fields the responder is not documented to look at (TOS / traffic class, id / flow label, the three IPv4 flag bits with fragment offset 0, TTL / hop limit 1..255), a wrong transport checksum, IPv4 options on echo, a client MAC that is unicast / broadcast / group / zero, an earlier ARP/NS from the client's IP with another MAC (ARP request with sender address = client / target / 0.0.0.0 / other and target hardware address zero / own MAC / broadcast / client's, echo v4/v6 with data 0..1472, neighbour solicitation unicast/solicited-node with NDP options, SYN with PSH/URG/ECE/CWR and payload, handshaken TCP data / UDP carrying an application request of every protocol generator or a hostile STUN TLV list, FIN|ACK; arbitrary addresses and ports incl. 0 and 65535). Oracle: independent decoder; Ethernet/IP/port tuple of the reply is the mirror image of the request's (NS: source = solicited target; STUN change-port: source port = dport+1), buffer is exactly one frame. Non-trivial = a reply exists; distinct by hash of (request, reply)."
     }
     fn run(&self, ctx: &mut RunCtx) {
         let n = ctx.share(ctx.tier.n(600_000, 10_000_000));
